@@ -148,6 +148,10 @@ func contentBytes(c mContent, name string) []byte {
 		return []byte("cdiVersion: \"0.6.0\"\nkind: v1.com/cls\ndevices: []\n")
 	case "empty":
 		return []byte{}
+	case "noperm":
+		// a perfectly valid Spec nobody may read: if it is read after all, its devices show up
+		cc := mContent{K: "ok", Kind: "k1", Ds: []string{"x", "y"}, V: 7}
+		return contentBytes(cc, name)
 	}
 	return nil
 }
@@ -211,6 +215,11 @@ func (w *cacheWorld) putEntry(dir, name string, c mContent) error {
 			return err
 		}
 		return os.WriteFile(filepath.Join(p, "s.json"), contentBytes(c, "s.json"), 0o644)
+	case c.K == "noperm":
+		if err := os.WriteFile(p, contentBytes(c, name), 0o644); err != nil {
+			return err
+		}
+		return os.Chmod(p, 0)
 	default:
 		return os.WriteFile(p, contentBytes(c, name), 0o644)
 	}
@@ -218,6 +227,7 @@ func (w *cacheWorld) putEntry(dir, name string, c mContent) error {
 
 func (w *cacheWorld) setDir(id string, d mDir) error {
 	top := filepath.Join(w.root, id)
+	_ = os.Chmod(w.dirPath(id), 0o755) // an unreadable directory cannot be emptied
 	_ = os.RemoveAll(top)
 	switch d.St {
 	case "missing":
@@ -229,7 +239,13 @@ func (w *cacheWorld) setDir(id string, d mDir) error {
 			return err
 		}
 		return os.WriteFile(w.dirPath(id), []byte("a file where a directory is configured\n"), 0o644)
-	case "dir":
+	case "dir", "noperm":
+		if d.St == "noperm" {
+			if os.Geteuid() == 0 {
+				return fmt.Errorf("unreadable directories need an unprivileged process (VERIF_UID)")
+			}
+			defer func() { _ = os.Chmod(w.dirPath(id), 0) }()
+		}
 		if err := os.MkdirAll(w.dirPath(id), 0o755); err != nil {
 			return err
 		}
@@ -477,7 +493,12 @@ func replayCacheRow(idx int, line []byte, seed int64, col *collector) {
 		return
 	}
 	w := &cacheWorld{root: mkScratch("cache")}
-	defer os.RemoveAll(w.root)
+	defer func() {
+		for id := range row.Fs0 {
+			_ = os.Chmod(w.dirPath(id), 0o755)
+		}
+		_ = os.RemoveAll(w.root)
+	}()
 	ids := make([]string, 0, len(row.Fs0))
 	for id := range row.Fs0 {
 		ids = append(ids, id)
@@ -532,6 +553,17 @@ func replayCacheRow(idx int, line []byte, seed int64, col *collector) {
 			case "remove":
 				_ = os.RemoveAll(filepath.Join(w.dirPath(st.D), st.N))
 				fs[st.D].Ents[st.N] = mContent{K: "none"}
+			case "chmod":
+				mode := os.FileMode(0o755)
+				if st.St == "noperm" {
+					mode = 0
+				}
+				if err := os.Chmod(w.dirPath(st.D), mode); err != nil || os.Geteuid() == 0 {
+					report(si, Mismatch{Props: []string{"TOOL"}, What: "materialise", Note: fmt.Sprint("chmod as uid ", os.Geteuid(), ": ", err)})
+				}
+				d0 := fs[st.D]
+				d0.St = st.St
+				fs[st.D] = d0
 			case "dirstate":
 				nd := mDir{St: st.St, Ents: map[string]mContent{}}
 				if err := w.setDir(st.D, nd); err != nil {
